@@ -178,6 +178,12 @@ class MetaMolecule(nx.Graph):
         self.clear()
         self.add_nodes_from(new_meta_graph.nodes(data=True))
         self.add_edges_from(new_meta_graph.edges)
+        # as for every meta molecule all residues are built and backmapped
+        # unless coordinates are given later on; residues that have not
+        # been relabeled do not carry these attributes at the atom level
+        for node in self.nodes:
+            self.nodes[node].setdefault("build", True)
+            self.nodes[node].setdefault("backmap", True)
 
     def split_residue(self, split_strings):
         """
